@@ -382,7 +382,31 @@ func (e *SpecEnv) quantSort(x *ast.CallExpr, sort string, mk func(string) Val) V
 	qcount++
 	v := fmt.Sprintf("%s!q%d", sanitize(id.Name), qcount)
 	body := e.with(id.Name, mk(v)).boolOf(x.Args[1])
+	// a quantifier chain that ends in an explicit trigger (trig(body, terms...)) is merged into one quantifier, so that
+	// the pattern may mention all of its variables
+	if strings.HasPrefix(body, "(forall (") && strings.Contains(body, ":pattern") && explicitTrigger(body) {
+		return boolV(fmt.Sprintf("(forall ((%s %s) %s", v, sort, strings.TrimPrefix(body, "(forall (")))
+	}
 	return boolV(fmt.Sprintf("(forall ((%s %s)) %s)", v, sort, body))
+}
+
+// explicitTrigger: the quantifier's body (after its binder list) is an annotated term "(! ... :pattern ...)".
+func explicitTrigger(q string) bool {
+	// skip "(forall (" binder-list ")" 
+	depth := 0
+	for i := len("(forall "); i < len(q); i++ {
+		switch q[i] {
+		case '(':
+			depth++
+		case ')':
+			depth--
+			if depth == 0 {
+				rest := strings.TrimSpace(q[i+1:])
+				return strings.HasPrefix(rest, "(! ")
+			}
+		}
+	}
+	return false
 }
 
 func (e *SpecEnv) evalCall(x *ast.CallExpr) Val {
@@ -437,15 +461,24 @@ func (e *SpecEnv) evalCall(x *ast.CallExpr) Val {
 		w.ensureSl("Data")
 		bs := e.run.boxFn("Sl_Data", "Data")
 		w.decls.declare("app_Real_Real", "(declare-fun app_Real_Real (Fn Real Real) Real)")
-		e.run.needNamed("foldD", fmt.Sprintf(`(declare-fun foldD (Fn Data Int Real) Real)
-(declare-fun foldK (Fn Data Int Real Int) Real)
-(assert (forall ((f Fn) (d Data) (n Int) (a Real)) (! (= (foldD f d n a) (ite (<= n 0) (app_Real_Real f a (un%s d)) (foldK f d n a (lenSl_Data (un%s d))))) :pattern ((foldD f d n a)))))
-(assert (forall ((f Fn) (d Data) (n Int) (a Real) (k Int)) (! (= (foldK f d n a k) (ite (<= k 0) a (foldD f (select (arrSl_Data (un%s d)) (- k 1)) (- n 1) (foldK f d n a (- k 1))))) :pattern ((foldK f d n a k)))))`, bf, bs, bs))
+		// declared here; defined by the spec axioms foldDDef / foldKDef (handed only to the units that unfold them: a
+		// recursive definition that is always present is a matching loop)
+		_, _ = bf, bs
+		e.run.needNamed("foldD", "(declare-fun foldD (Fn Data Int Real) Real)\n(declare-fun foldK (Fn Data Int Real Int) Real)")
 		fn := e.run.coerce(e.st, arg(0), "Fn", name)
 		if name == "foldD" {
 			return realV(sx("foldD", fn, arg(1).T, arg(2).T, toReal(arg(3))))
 		}
 		return realV(sx("foldK", fn, arg(1).T, arg(2).T, toReal(arg(3)), arg(4).T))
+	case "ones", "onesK":
+		// ones(d, A, lo, hi): number of leaves equal to 1 in the tree d (levels lo..hi, sizes A); onesK(d, A, lo, hi, k): the
+		// same over the first k children of d. Declared here, defined by the spec axioms onesDef / onesKDef.
+		e.run.needData()
+		e.run.needNamed("ones", "(declare-fun ones (Data (Array Int Int) Int Int) Int)\n(declare-fun onesK (Data (Array Int Int) Int Int Int) Int)")
+		if name == "ones" {
+			return intV(sx("ones", arg(0).T, e.run.coerce(e.st, arg(1), idxSort, name), arg(2).T, arg(3).T))
+		}
+		return intV(sx("onesK", arg(0).T, e.run.coerce(e.st, arg(1), idxSort, name), arg(2).T, arg(3).T, arg(4).T))
 	case "dataMM":
 		// dataMM(a, b, i, j, k): sum over q < k of a[i][q] * b[q][j] for two matrices of float64 leaves
 		e.run.needData()
@@ -610,6 +643,22 @@ func (e *SpecEnv) evalCall(x *ast.CallExpr) Val {
 		r := a
 		r.T = ite(c, a.T, b.T)
 		return r
+	case "trig":
+		// trig(body, t1, t2, ...): body with an explicit quantifier trigger (multi-pattern t1 t2 ...) for the enclosing
+		// chain of sort quantifiers (forallI / forallJ / ...)
+		if len(x.Args) < 2 {
+			specFail("trig(body, terms...)")
+		}
+		b := e.boolOf(x.Args[0])
+		var ts []string
+		for _, a := range x.Args[1:] {
+			v := e.eval(a)
+			if v.K == KSlice || v.T == "" {
+				specFail("trig: pattern terms must be scalar terms")
+			}
+			ts = append(ts, v.T)
+		}
+		return boolV(fmt.Sprintf("(! %s :pattern (%s))", b, strings.Join(ts, " ")))
 	case "old":
 		oe := e.inOld()
 		v := oe.eval(x.Args[0])
